@@ -94,6 +94,7 @@ type Ctx struct {
 	viaStack  []string
 	clk0      *Term
 	curFrame  *frame
+	splitting bool
 	curExecFrame *frame
 	defAxioms map[*ssa.Function]bool
 	started   time.Time
@@ -133,6 +134,17 @@ func (c *Ctx) oblige(st *State, kind, text string, pos token.Pos, cond *Term) {
 	if c.quiet > 0 {
 		c.assume(pc, cond)
 		return
+	}
+	if contractKind(kind) && !c.splitting {
+		if parts := splitGoal(cond, 0); len(parts) > 1 && len(parts) <= 64 {
+			// one query per conjunct; each sees the earlier conjuncts as facts
+			c.splitting = true
+			for i, p := range parts {
+				c.oblige(st, kind, fmt.Sprintf("%s[%d/%d]", text, i+1, len(parts)), pos, p)
+			}
+			c.splitting = false
+			return
+		}
 	}
 	base := c.FnName
 	if len(c.viaStack) > 0 {
